@@ -70,7 +70,8 @@ class Exec:
             fn, length, normal_len, predicate = ts
             goal = fn(st.tn, record, st) if predicate else record == fn(st.tn)
             self.oblige('trace:each_call_is_the_expected_one_at_its_position', st, goal, kind='trace')
-            self.oblige('trace:no_call_beyond_the_expected_ones', st, st.tn < length, kind='trace')
+            if length is not None:
+                self.oblige('trace:no_call_beyond_the_expected_ones', st, st.tn < length, kind='trace')
         st.emit(record)
 
     def raise_(self, st, cls, where=None, val=None):
@@ -245,8 +246,11 @@ class Exec:
                 for k, v in zip(e.keys, vals):
                     if k is None:                       # **mapping
                         src = self.as_dict(s2, v)
-                        ks = fresh('k', StringSort())
-                        arr = z3.Lambda([ks], If(Opt.is_Some(src[ks]), src[ks], arr[ks]))
+                        if arr.eq(EMPTY_DICT):
+                            arr = src                   # {**m, ...}: starts as a copy of m
+                        else:
+                            ks = fresh('k', StringSort())
+                            arr = z3.Lambda([ks], If(Opt.is_Some(src[ks]), src[ks], arr[ks]))
                     else:
                         kk = keys.pop(0)
                         arr = Store(arr, self.as_str(s2, kk), Opt.Some(to_val(v, s2)))
